@@ -92,6 +92,10 @@ def outLine (ms : List (Member Nat Unit E)) (errs : List E) (aborted : Bool) (fi
   "calls " ++ showMembers ms final.isSome ++ "|errs " ++ " ".intercalate (errs.map showErr) ++ (if aborted then " A" else "")
     ++ "|final " ++ (match final with | some ti => (if showFinal then showDepths ti else "-") | none => "-") ++ "|stop " ++ (if stop then "1" else "0")
 
+/-- the hypotheses of `parallel_alone_direct` hold for this tree -/
+def wellNested (t : Tree) : String :=
+  if t.noSelfNest && t.noRegNest Generated.tiTable then "|wn 1" else "|wn 0"
+
 def runCase (mode : String) (max : Option Nat) (t : Tree) (specs : List Spec) : String :=
   let rules : List (Rule Nat Unit E × Unit) := specs.zipIdx.map (fun (sp, idx) => (mkRule sp idx, ()))
   match mode with
@@ -161,7 +165,7 @@ def step (line : String) : String :=
     match max, parseTrees treeWs 0, parseNats specWs with
     | some max, some ([t], [], _), some ns =>
       match parseSpecs ns with
-      | some specs => runCase mode max t specs
+      | some specs => runCase mode max t specs ++ wellNested t
       | none => "bad-op"
     | _, _, _ => "bad-op"
   | _ => "bad-op"
